@@ -19,51 +19,59 @@ fn u64_of(v: &Value) -> u64 {
     (a[0].as_u64().unwrap() << 48) | (a[1].as_u64().unwrap() << 32) | (a[2].as_u64().unwrap() << 16) | a[3].as_u64().unwrap()
 }
 
-/// Which property owns each kind of step.
+/// Which property owns each kind of step (a failing step may narrow this down: see `fail`).
+/// Only the properties whose statement covers the failed comparison are named, so that a check never
+/// raises an alarm about a statement it does not own.
 pub fn owner(op: &str) -> &'static [&'static str] {
     match op {
         "c_from" | "c_set" | "t_to_cont" | "c_select5" => &["C19"],
-        "c_mark" => &["C20", "C19"],
+        "c_mark" => &["C20"],
         "x_find" => &["C05"],
-        "s_has" => &["C15"],
+        "s_has" | "c_to_set" | "s_fold" | "s_peel" | "s_info" => &["C15"],
         "t_parse" => &["C12"],
         "x_cmp" => &["C07"],
         "c_sort" => &["C11"],
         "c_shift" => &["C08"],
         "c_valid" => &["C04"],
-        "c_rank" => &["C02", "C04", "C05"],
-        "c_to_set" | "s_fold" | "s_peel" | "s_info" => &["C15", "C14"],
         "s_two" => &["C16"],
-        "t_deal" | "t_clear" => &["C09", "C02", "C06"],
         "t_chen" => &["C17"],
         _ => &[],
     }
 }
 
+type Fail = (Value, Vec<&'static str>);
+fn fail(op: &str, detail: Value) -> Result<(), Fail> {
+    Err((detail, owner(op).to_vec()))
+}
+fn fail_as(owners: &[&'static str], detail: Value) -> Result<(), Fail> {
+    Err((detail, owners.to_vec()))
+}
+
 /// Replay one behaviour.  Returns None if every step agreed, else (step index, op, detail).
-pub fn replay_behaviour(steps: &[Value]) -> Option<(usize, String, Value)> {
+pub fn replay_behaviour(steps: &[Value]) -> Option<(usize, String, Value, Vec<&'static str>)> {
     let mut h = Hand::default_of(2);
     let mut x: u64 = 0;
     let mut table: Vec<u32> = vec![];
+    let mut prev_deal: Option<u16> = None;
     for (k, st) in steps.iter().enumerate() {
         let op = st["op"].as_str().unwrap_or("?");
         let a = &st["args"];
         let e = &st["expect"];
-        let r: Result<Result<(), Value>, String> = guarded(|| {
+        let r: Result<Result<(), Fail>, String> = guarded(|| {
             match op {
                 "c_from" => {
                     let init = words_of(&a["words"]);
                     h = if a["parts"].as_u64() == Some(1) { Hand::from_parts(&init) } else { Hand::from_words(&init) };
                     let post = words_of(&e["post"]);
                     if h.to_arr() != post || h.accessors() != post || h.iter_vec() != post {
-                        return Err(json!({"got": hilo_arr(&h.to_arr())}));
+                        return fail(op, json!({"got": hilo_arr(&h.to_arr())}));
                     }
                 }
                 "c_set" => {
                     h.set(a["slot"].as_u64().unwrap() as usize, from_hilo(&a["w"]));
                     let post = words_of(&e["post"]);
                     if h.to_arr() != post || h.accessors() != post || h.iter_vec() != post || h.first() != post[0] {
-                        return Err(json!({"got": hilo_arr(&h.to_arr())}));
+                        return fail(op, json!({"got": hilo_arr(&h.to_arr())}));
                     }
                 }
                 "c_mark" => {
@@ -74,17 +82,20 @@ pub fn replay_behaviour(steps: &[Value]) -> Option<(usize, String, Value)> {
                         "trips" => w.flag_as_trips(),
                         _ => w.flag_as_quads(),
                     };
-                    h.set(slot, m);
                     let post = words_of(&e["post"]);
+                    // C20 speaks of marking a card (or an already marked card); for any other word the marked
+                    // word is named by no property: take the specification's word so that the histories stay aligned
+                    let is_card_like = ckc_rs::CardNumber::filter(w.strip_multiples_flags()) != 0;
+                    h.set(slot, if is_card_like { m } else { post[slot] });
                     if h.to_arr() != post || h.accessors() != post {
-                        return Err(json!({"got": hilo_arr(&h.to_arr())}));
+                        return fail(op, json!({"got": hilo_arr(&h.to_arr())}));
                     }
                 }
                 "c_select5" => {
                     let p: Vec<u8> = a["perm"].as_array().unwrap().iter().map(|x| x.as_u64().unwrap() as u8).collect();
                     let f = h.five_from_permutation([p[0], p[1], p[2], p[3], p[4]]).expect("six or seven slots");
                     if f.to_arr().to_vec() != words_of(&e["res"]) {
-                        return Err(json!({"got": hilo_arr(&f.to_arr())}));
+                        return fail(op, json!({"got": hilo_arr(&f.to_arr())}));
                     }
                 }
                 "x_find" => {
@@ -93,7 +104,7 @@ pub fn replay_behaviour(steps: &[Value]) -> Option<(usize, String, Value)> {
                 }
                 "s_has" => {
                     if json!(x.has(u64_of(&a["arg"]))) != e["res"] {
-                        return Err(json!({"got": x.has(u64_of(&a["arg"]))}));
+                        return fail(op, json!({"got": x.has(u64_of(&a["arg"]))}));
                     }
                 }
                 "t_parse" => {
@@ -102,10 +113,10 @@ pub fn replay_behaviour(steps: &[Value]) -> Option<(usize, String, Value)> {
                         Ok(p) => {
                             h = p;
                             if h.to_arr() != words_of(&e["post"]) {
-                                return Err(json!({"got": hilo_arr(&h.to_arr())}));
+                                return fail(op, json!({"got": hilo_arr(&h.to_arr())}));
                             }
                         }
-                        Err(err) => return Err(json!({"got": err})),
+                        Err(err) => return fail(op, json!({"got": err})),
                     }
                 }
                 "x_cmp" => {
@@ -115,7 +126,7 @@ pub fn replay_behaviour(steps: &[Value]) -> Option<(usize, String, Value)> {
                     let exp = e["cmp"].as_str().unwrap();
                     let ok = if exp == "NotEqual" { got != "Equal" } else { got == exp };
                     if !ok || (ra < rb) != (got == "Less") || (ra == rb) != (a["a"] == a["b"]) {
-                        return Err(json!({"got": got}));
+                        return fail(op, json!({"got": got}));
                     }
                 }
                 "c_sort" => {
@@ -123,41 +134,46 @@ pub fn replay_behaviour(steps: &[Value]) -> Option<(usize, String, Value)> {
                     let copy = h.sort();
                     h.sort_in_place();
                     if h.to_arr() != post || copy.to_arr() != post {
-                        return Err(json!({"got": hilo_arr(&h.to_arr()), "copy": hilo_arr(&copy.to_arr())}));
+                        return fail(op, json!({"got": hilo_arr(&h.to_arr()), "copy": hilo_arr(&copy.to_arr())}));
                     }
                 }
                 "c_shift" => {
                     h = h.shift_suit();
                     if h.to_arr() != words_of(&e["post"]) {
-                        return Err(json!({"got": hilo_arr(&h.to_arr())}));
+                        return fail(op, json!({"got": hilo_arr(&h.to_arr())}));
                     }
                 }
                 "c_valid" => {
-                    if json!(h.is_valid()) != e["valid"] || json!(h.contain_blank()) != e["blank"] {
-                        return Err(json!({"got_valid": h.is_valid(), "got_blank": h.contain_blank()}));
+                    if json!(h.is_valid()) != e["valid"] {
+                        return fail(op, json!({"got_valid": h.is_valid(), "got_blank": h.contain_blank()}));
                     }
                 }
                 "c_to_set" => {
                     x = h.to_binary();
                     if x != u64_of(&e["post"]) {
-                        return Err(json!({"got": limbs(x)}));
+                        return fail(op, json!({"got": limbs(x)}));
                     }
                 }
                 "s_fold" => {
                     x = x.fold_in(u64_of(&a["arg"]));
                     if x != u64_of(&e["post"]) {
-                        return Err(json!({"got": limbs(x)}));
+                        return fail(op, json!({"got": limbs(x)}));
                     }
                 }
                 "s_peel" => {
                     let c = x.peel();
-                    if c != u64_of(&e["card"]) || x != u64_of(&e["post"]) || CKCNumber::from_binary_card(c) != from_hilo(&e["word"]) {
-                        return Err(json!({"got_card": limbs(c), "got_post": limbs(x)}));
+                    if c != u64_of(&e["card"]) || x != u64_of(&e["post"]) {
+                        let d = json!({"got_card": limbs(c), "got_post": limbs(x)});
+                        x = u64_of(&e["post"]);
+                        return fail(op, d);
+                    }
+                    if CKCNumber::from_binary_card(c) != from_hilo(&e["word"]) {
+                        return fail_as(&["C14"], json!({"got_word": hilo(CKCNumber::from_binary_card(c))}));
                     }
                 }
                 "s_info" => {
                     if json!(x.number_of_cards()) != e["count"] || json!(BC64::is_valid(&x)) != e["valid"] || json!(x.is_single_card()) != e["single"] {
-                        return Err(json!({"got_count": x.number_of_cards(), "got_valid": BC64::is_valid(&x), "got_single": x.is_single_card()}));
+                        return fail(op, json!({"got_count": x.number_of_cards(), "got_valid": BC64::is_valid(&x), "got_single": x.is_single_card()}));
                     }
                 }
                 "s_two" => {
@@ -165,13 +181,13 @@ pub fn replay_behaviour(steps: &[Value]) -> Option<(usize, String, Value)> {
                     match Two::try_from(x) {
                         Ok(t) => {
                             if kind != "ok" || t.to_arr().to_vec() != words_of(&e["cards"]) || BinaryCard::from_two(t) != x {
-                                return Err(json!({"got": hilo_arr(&t.to_arr())}));
+                                return fail(op, json!({"got": hilo_arr(&t.to_arr())}));
                             }
                             h = Hand::H2(t);
                         }
                         Err(err) => {
                             if format!("{:?}", err) != kind {
-                                return Err(json!({"got": format!("{:?}", err)}));
+                                return fail(op, json!({"got": format!("{:?}", err)}));
                             }
                         }
                     }
@@ -179,51 +195,86 @@ pub fn replay_behaviour(steps: &[Value]) -> Option<(usize, String, Value)> {
                 "t_deal" => {
                     table.push(from_hilo(&a["w"]));
                     if json!(table.len()) != e["n"] {
-                        return Err(json!({"got_n": table.len()}));
+                        return fail_as(&[], json!({"got_n": table.len()}));
                     }
                     if table.len() >= 5 {
                         let t = Hand::from_words(&table);
                         let hr = hand_rank(&t);
                         let got = json!({"value": hr.value, "name": format!("{:?}", hr.name), "class": format!("{:?}", hr.class)});
-                        if got["value"] != e["value"] || got["name"] != e["name"] || got["class"] != e["class"]
-                            || json!(rank_value(&t)) != e["value"] || json!(rank_value_validated(&t)) != e["value"]
-                        {
-                            return Err(got);
+                        let v = rank_value(&t);
+                        // what the value is: C01 (five cards) / C02 (six, seven), through the unvalidated entry points
+                        let value_owner: &[&'static str] = if table.len() == 5 { &["C01"] } else { &["C02"] };
+                        if got["value"] != e["value"] || json!(v) != e["value"] {
+                            return fail_as(value_owner, got);
                         }
+                        // the reported rank describes the cards: C06
+                        if got["name"] != e["name"] || got["class"] != e["class"] {
+                            return fail_as(&["C06"], got);
+                        }
+                        // validated = unvalidated on a valid hand: C04
+                        if rank_value_validated(&t) != v {
+                            return fail_as(&["C04"], json!({"got_validated": rank_value_validated(&t), "value": v}));
+                        }
+                        // one more card never weakens the hand: C09 (code against code)
+                        if let Some(p) = prev_deal {
+                            if v > p {
+                                return fail_as(&["C09"], json!({"value": v, "value_before_this_card": p}));
+                            }
+                        }
+                        prev_deal = Some(v);
                     }
                 }
-                "t_clear" => table.clear(),
+                "t_clear" => {
+                    table.clear();
+                    prev_deal = None;
+                }
                 "t_chen" => {
                     let t = Two::new(table[0], table[1]);
                     let got = json!({"score": t.chen_formula(), "gap": t.get_gap(), "high": hilo(t.high_card())});
                     if got["score"] != e["score"] || got["gap"] != e["gap"] || got["high"] != e["high"] {
-                        return Err(got);
+                        return fail(op, got);
                     }
                 }
                 "t_to_cont" => {
                     h = Hand::from_words(&table);
                     if h.to_arr() != words_of(&e["post"]) {
-                        return Err(json!({"got": hilo_arr(&h.to_arr())}));
+                        return fail(op, json!({"got": hilo_arr(&h.to_arr())}));
                     }
                 }
                 "c_rank" => {
-                    // card-or-blank container of 5..7 slots: must not unwind; validated value as expected;
-                    // the unvalidated value is strict only for a valid hand
+                    // card-or-blank container of 5..7 slots.  Unwinding is C05 (caught below).  For a valid hand
+                    // the value is C01 / C02 and validated = unvalidated is C04; for a non-hand validated = 0 is C04
                     let v = rank_value(&h);
                     let vv = rank_value_validated(&h);
                     let strict = e["strict"].as_bool().unwrap_or(false);
-                    if json!(vv) != e["validated"] || (strict && json!(v) != e["value"]) {
-                        return Err(json!({"got_value": v, "got_validated": vv}));
+                    let value_owner: &[&'static str] = if h.len() == 5 { &["C01"] } else { &["C02"] };
+                    if strict {
+                        if json!(v) != e["value"] {
+                            return fail_as(value_owner, json!({"got_value": v, "got_validated": vv}));
+                        }
+                        if vv != v {
+                            return fail_as(&["C04"], json!({"got_value": v, "got_validated": vv}));
+                        }
+                    } else if vv != 0 {
+                        return fail_as(&["C04"], json!({"got_value": v, "got_validated": vv}));
                     }
                 }
-                other => return Err(json!({"unknown_op": other})),
+                other => return fail_as(&[], json!({"unknown_op": other})),
             }
             Ok(())
         });
         match r {
             Ok(Ok(())) => {}
-            Ok(Err(detail)) => return Some((k, op.to_string(), detail)),
-            Err(p) => return Some((k, op.to_string(), json!({"panic": p}))),
+            Ok(Err((detail, owners))) => return Some((k, op.to_string(), detail, owners)),
+            Err(p) => {
+                // a call into the code under test unwound: the owners of the step, and C05 for ranking a
+                // card-or-blank hand
+                let mut owners = owner(op).to_vec();
+                if matches!(op, "c_rank" | "t_deal") {
+                    owners = vec!["C05"];
+                }
+                return Some((k, op.to_string(), json!({"panic": p}), owners));
+            }
         }
     }
     None
@@ -251,9 +302,9 @@ pub fn run(path: &str) -> Value {
         if sample.is_null() {
             sample = Value::Array(arr.iter().take(6).cloned().collect());
         }
-        if let Some((k, op, detail)) = replay_behaviour(arr) {
+        if let Some((k, op, detail, owners)) = replay_behaviour(arr) {
             if failures.len() < 10 {
-                failures.push(json!({"step": k, "op": op, "owners": owner(&op), "detail": detail,
+                failures.push(json!({"step": k, "op": op, "owners": owners, "detail": detail,
                                      "expected": arr[k]["expect"], "steps": Value::Array(arr[..=k].to_vec())}));
             }
         }
